@@ -27,7 +27,7 @@ NPRES = 6
 
 
 def plan(tier, seed):
-    return dict(n=(90 if tier == 'quick' else 3000) + N_SUB * (1 if tier == 'quick' else 8), budget_s=85 if tier == 'quick' else 840, case_timeout=400)
+    return dict(n=(90 if tier == 'quick' else 3000) + N_SUB * (1 if tier == 'quick' else 8), budget_s=170 if tier == 'quick' else 840, case_timeout=500)
 
 
 def gen(tier, seed, index):
